@@ -100,6 +100,7 @@ type fn struct {
 	notes     []string
 	errCls    map[string]bool
 	structLocal map[types.Object]bool
+	condDepth   int // > 0 while a conditionally evaluated operand (right side of && / ||, a later case expression) is translated
 }
 
 func (t *fn) reject(n ast.Node, format string, a ...any) {
@@ -351,7 +352,9 @@ func (t *fn) binary(x *ast.BinaryExpr) string {
 		var sub []string
 		save := t.pre
 		t.pre = &sub
+		t.condDepth++
 		b := t.ex(x.Y)
+		t.condDepth--
 		t.pre = save
 		if len(sub) == 0 {
 			if x.Op == token.LAND {
@@ -706,6 +709,7 @@ func (t *fn) call(x *ast.CallExpr, want int) []string {
 		pat = "_"
 	}
 	if len(outObjs) > 0 {
+		t.noCond(x, callee.Name())
 		var outs []string
 		for range outObjs {
 			outs = append(outs, t.fresh("io"))
@@ -795,6 +799,7 @@ func (t *fn) recvMethodCall(x *ast.CallExpr, callee *types.Func) []string {
 		pat = "_"
 	}
 	if dep.Sig.RecvOut {
+		t.noCond(x, dep.Key)
 		if !t.recvOut {
 			t.reject(x, "internal: receiver-writing callee found late")
 		}
@@ -1665,6 +1670,13 @@ func (t *fn) aliasReason(o types.Object) string {
 			if !passed {
 				return true
 			}
+			// a method that writes its receiver may store the argument in it (`b.vals = x`)
+			if dep := t.recvMethodDep(s); dep != nil && dep.OK && dep.Sig != nil && dep.Sig.RecvOut {
+				why = "the receiver-writing method called in " + t.text(s) + " may keep it"
+			}
+			if dep, _ := t.localMethodDep(s); dep != nil && dep.OK && dep.Sig != nil && dep.Sig.RecvOut {
+				why = "the receiver-writing method called in " + t.text(s) + " may keep it"
+			}
 			if sig, ok := t.typeOf(s.Fun).Underlying().(*types.Signature); ok {
 				for i := 0; i < sig.Results().Len(); i++ {
 					rt, err := t.goType(sig.Results().At(i).Type())
@@ -1879,11 +1891,17 @@ func (t *fn) switchStmt(x *ast.SwitchStmt, c *ctx, k func() []string) []string {
 					var conds []string
 					var subs [][]string
 					anySub := false
-					for _, e := range cc.List {
+					for ci, e := range cc.List {
 						var sub []string
 						save := t.pre
 						t.pre = &sub
+						if ci > 0 {
+							t.condDepth++
+						}
 						v := t.ex(e)
+						if ci > 0 {
+							t.condDepth--
+						}
 						t.pre = save
 						if x.Tag != nil {
 							v = "(" + tagName + " == " + v + ")"
@@ -1990,6 +2008,18 @@ func (t *fn) loop(node ast.Node, cond ast.Expr, bodyHead func(c *ctx, k func() [
 		nodes = append(nodes, post)
 	}
 	state := t.assignedOuter(nodes...)
+	if cond != nil {
+		// a state-passing call in the loop condition (`for r.Push(x) {`) writes its variable in every iteration
+		have := map[types.Object]bool{}
+		for _, o := range state {
+			have[o] = true
+		}
+		for _, o := range t.assignedOuter(cond) {
+			if !have[o] {
+				state = append(state, o)
+			}
+		}
+	}
 	inState := map[types.Object]bool{}
 	for _, o := range state {
 		inState[o] = true
@@ -3113,6 +3143,7 @@ func (t *fn) localMethodCall(x *ast.CallExpr, callee *types.Func, dep *FuncResul
 		pat = "_"
 	}
 	if dep.Sig.RecvOut {
+		t.noCond(x, dep.Key)
 		nr := t.fresh("rc")
 		if nres == 0 {
 			pat = nr
@@ -3128,4 +3159,13 @@ func (t *fn) localMethodCall(x *ast.CallExpr, callee *types.Func, dep *FuncResul
 		return []string{"()"}
 	}
 	return names
+}
+
+// noCond: a call that rebinds a variable of the caller (in-out argument, written receiver) must
+// stand where its bindings are made at statement level: inside the right operand of && / || or a
+// later case expression they would be local to the nested block and the write would be lost.
+func (t *fn) noCond(x *ast.CallExpr, callee string) {
+	if t.condDepth > 0 {
+		t.reject(x, "the call of %s writes a variable of the caller (state passing) inside a conditionally evaluated operand (right side of &&/||, later case expression): outside the subset", callee)
+	}
 }
